@@ -33,7 +33,7 @@ func c11Be32(n uint32) []byte { return []byte{byte(n >> 24), byte(n >> 16), byte
 // bytes >= 0x80.
 func c11WirePrefixes(lim uint32, bodyLen uint32) []uint32 {
 	ps := []uint32{
-		0, 1, 3, bodyLen - 1, bodyLen + 1, 0xff, 0x100, 0xffff,
+		0, 1, 3, bodyLen - 1, bodyLen, bodyLen + 1, 0xff, 0x100, 0xffff,
 		0x10000 | bodyLen, 0x1000000 | bodyLen, 0x80000000 | bodyLen, 0xffff0000 | bodyLen, 0x100 + bodyLen,
 		lim - 1, lim, lim + 1, lim + 2, 2 * lim, 1 << 20, 1<<20 + 1, 16 << 20, 16<<20 + 1, 17 << 20,
 		0x7ffffffe, 0x7fffffff, 0x80000000, 0x80000001, 0x80000000 + lim, 0xfffffffe, 0xffffffff,
